@@ -401,7 +401,11 @@ func TestC09Pinned(t *testing.T) {
 	leg := wopts{BS: 7, Conc: 1, Legacy: true}
 	for _, segs := range [][]gen.Seg{{}, {{K: "text", N: 100, S: 1, P: 4}}, {{K: "rand", N: 8 << 20, S: 9}}, {{K: "rand", N: 8<<20 + 70000, S: 10}}, {{K: "text", N: 8<<20 + 1, S: 2, P: 4}},
 		// incompressible blocks whose worst-case compressed size straddles the 8 MiB buffer
-		{{K: "rand", N: 8<<20 - 1, S: 11}}, {{K: "rand", N: 8355712, S: 12}}, {{K: "rand", N: 8355711, S: 13}}, {{K: "rand", N: 8<<20 + 8360000, S: 14}}, {{K: "rand", N: 8300000, S: 15}}} {
+		{{K: "rand", N: 8<<20 - 1, S: 11}}, {{K: "rand", N: 8355712, S: 12}}, {{K: "rand", N: 8355711, S: 13}}, {{K: "rand", N: 8<<20 + 8360000, S: 14}}, {{K: "rand", N: 8300000, S: 15}},
+		// ... and with a compressible stretch at the end of the (almost) full block: the fast compressor then runs out of
+		// room in the middle of a sequence instead of reporting "incompressible"
+		{{K: "rand", N: 8<<20 - 8192, S: 16}, {K: "run", N: 8192, P: 0}, {K: "text", N: 1000, S: 3, P: 4}}, {{K: "rand", N: 8<<20 - 32768, S: 17}, {K: "run", N: 32768, P: 0}},
+		{{K: "rand", N: 8<<20 - 4096, S: 18}, {K: "text", N: 4096, S: 4, P: 2}}, {{K: "rand", N: 8370000, S: 19}, {K: "run", N: 8<<20 - 8370000, P: 'a'}, {K: "rand", N: 8370000, S: 20}, {K: "run", N: 10000, P: 0}}} {
 		pinned(t, "C09", "C09/conformance", mk(leg, segs, "write", ""), runC09)
 		pinned(t, "C09", "C09/conformance", mk(leg, segs, "readfrom", ""), runC09)
 	}
